@@ -2,4 +2,4 @@ From Coq Require Import Extraction ExtrOcamlBasic.
 From TK Require Import Validate_Model Validate_Spec Validate.
 Extraction "c14_model.ml" exec spec_outcome spec_decide pm_merge gen_tables doc_tables old_of t_defaults
   comma_expression run_check run_check_types run_merge run_index gen_container ps_build wrong_type_vs pm_lookup
-  gen_predicates body_holds.
+  gen_predicates body_holds exec_via route_of_id gen_copying route_set arrives.
